@@ -245,4 +245,45 @@ theorem sanitizeList_clean : ∀ vs : List RV, RV.cleanList (sanitizeList vs) = 
 end
 
 
+/-! ### the forwarding proxy on a remote node that writes one reply frame -/
+
+theorem relayFrom_framed (bs : Bytes) (v : RV) (hf : Framed bs v) (extra : Bytes) :
+    ∀ (cs : List Bytes) (buf : Bytes), (∃ t, t ≠ [] ∧ buf ++ t = bs) →
+      buf ++ cs.flatten = bs ++ extra → relayFrom buf cs = some bs := by
+  obtain ⟨hne, hval, hpre⟩ := hf
+  intro cs
+  induction cs with
+  | nil =>
+    intro buf ⟨t, ht, hb⟩ he
+    exfalso
+    simp only [List.flatten_nil, List.append_nil] at he
+    have l1 := congrArg List.length hb
+    have l2 := congrArg List.length he
+    simp only [List.length_append] at l1 l2
+    have : 0 < t.length := List.length_pos_iff.mpr ht
+    omega
+  | cons c cs ih =>
+    intro buf hb he
+    have he' : (buf ++ c) ++ cs.flatten = bs ++ extra := by simpa [List.append_assoc] using he
+    have key : (∃ a', a' ≠ [] ∧ (buf ++ c) ++ a' = bs) ∨ (∃ c', buf ++ c = bs ++ c') := by
+      rcases List.append_eq_append_iff.mp he' with ⟨a', h1, _⟩ | ⟨c', h1, _⟩
+      · cases a' with
+        | nil => right; exact ⟨[], by simpa using h1.symm⟩
+        | cons x xs => left; exact ⟨x :: xs, by simp, h1.symm⟩
+      · right; exact ⟨c', h1⟩
+    rcases key with ⟨a', ha, hq⟩ | ⟨c', hq⟩
+    · have hm := hpre (buf ++ c) a' ha hq
+      simp only [relayFrom, hm.1]
+      exact ih (buf ++ c) ⟨a', ha, hq⟩ he'
+    · have hv := hval c'
+      rw [← hq] at hv
+      simp only [relayFrom, hv.1, hv.2]
+      rw [hq]
+      simp
+
+theorem relay_framed (bs : Bytes) (v : RV) (hf : Framed bs v) (extra : Bytes) (cs : List Bytes)
+    (hcs : cs.flatten = bs ++ extra) : relay cs = some bs := by
+  have hne := hf.1
+  exact relayFrom_framed bs v hf extra cs [] ⟨bs, hne, by simp⟩ (by simpa using hcs)
+
 end SgModel.Resp
